@@ -41,6 +41,16 @@ FinalR(penv, fs) ==
   IF S = {} THEN Unset ELSE LET i == CHOOSE x \in S : \A y \in S : y <= x IN V(RefValue(penv, fs, i))
 
 FinalLabel(lfs, entry) == IF entry = "value" THEN V("e") ELSE LastDef(lfs)
+\* R=${K} in a label file: labels of earlier label files first, then earlier lines (the project environment is not consulted)
+LabelRefValue(lfs, i) ==
+  LET earlier == LastDef(SubSeq(lfs, 1, i - 1)) IN
+  IF earlier.set THEN earlier.v ELSE IF lfs[i].k.set THEN lfs[i].k.v ELSE ""
+FinalLabelR(lfs) ==
+  LET S == {i \in 1..Len(lfs) : lfs[i].state = "present" /\ lfs[i].r} IN
+  IF S = {} THEN Unset ELSE LET i == CHOOSE x \in S : \A y \in S : y <= x IN V(LabelRefValue(lfs, i))
+\* a second service that lists a file of its own first and then the last file of the first service: each service's
+\* layering is computed from its own list only
+OwnThenShared(own, fs) == <<[state |-> "present", k |-> V(own), r |-> FALSE]>> \o (IF fs = <<>> THEN <<>> ELSE <<fs[Len(fs)]>>)
 
 \* pairwise precedence, as laws of the specification
 Laws(penv, fs, entry) ==
